@@ -1,0 +1,68 @@
+//go:build verif
+
+package eio
+
+import (
+	"time"
+
+	"github.com/karagenc/socket.io-go/engine.io/parser"
+	"github.com/karagenc/socket.io-go/engine.io/transport"
+)
+
+// Exported wrappers for the verification harness (build tag `verif`).
+
+// VerifWriteWritablePackets runs the client's batching routine (writeWritablePackets)
+// over a caller-supplied transport, without a network.
+func VerifWriteWritablePackets(t ClientTransport, maxPayload int64, packets ...*parser.Packet) {
+	s := &clientSocket{
+		transport:  t,
+		maxPayload: maxPayload,
+		debug:      NewNoopDebugger(),
+	}
+	s.writeWritablePackets(packets...)
+}
+
+// VerifNewClientSocket builds a client socket over a caller-supplied, already "connected" transport
+// and starts its heartbeat watchdog. onPacket/onClose of the transport callbacks are wired to the socket.
+func VerifNewClientSocket(
+	t ClientTransport,
+	tc *transport.Callbacks,
+	callbacks *Callbacks,
+	pingInterval, pingTimeout time.Duration,
+	maxPayload int64,
+) ClientSocket {
+	if callbacks == nil {
+		callbacks = new(Callbacks)
+	}
+	callbacks.setMissing()
+	s := &clientSocket{
+		transport:      t,
+		callbacks:      *callbacks,
+		pingInterval:   pingInterval,
+		pingTimeout:    pingTimeout,
+		maxPayload:     maxPayload,
+		upgradeTimeout: defaultUpgradeTimeout,
+		upgradeDone:    func(string) {},
+		pingChan:       make(chan struct{}, 1),
+		closeChan:      make(chan struct{}),
+		debug:          NewNoopDebugger(),
+	}
+	tc.Set(s.onPacket, s.onTransportClose)
+	go s.handleTimeout()
+	return s
+}
+
+// VerifNewServerSocket builds a server socket over a caller-supplied transport
+// and starts its heartbeat loop.
+func VerifNewServerSocket(
+	id string,
+	t ServerTransport,
+	tc *transport.Callbacks,
+	callbacks *Callbacks,
+	pingInterval, pingTimeout time.Duration,
+	onClose func(sid string),
+) ServerSocket {
+	s := newServerSocket(id, nil, t, tc, pingInterval, pingTimeout, NewNoopDebugger(), onClose)
+	s.setCallbacks(callbacks)
+	return s
+}
